@@ -221,17 +221,58 @@ Definition get_type_or_above_depth (d : dump) (ty : N) : option Z :=
   else above_scan d ty (S (Z.to_nat (t_depth d))) 0%Z.
 
 (* ------------------------------------------------------------------ *)
-(* hwloc_get_common_ancestor_obj: the alternating climb.  The two inner
-   while loops and the equal-depth step are one transition each; the sequence
-   of (obj1, obj2) states is the C one. *)
+(* hwloc_get_common_ancestor_obj.  Normal objects: the alternating climb on
+   depths (the two inner while loops and the equal-depth step are one
+   transition each; the sequence of (obj1, obj2) states is the C one).  As soon
+   as one object has a negative (virtual) depth, the numbers of ancestors are
+   compared instead (fix df24cb8).  In the flattened loop the depth test is
+   made at every transition; C makes it once per outer iteration, which is the
+   same sequence whenever the parent of an object of depth >= 0 has depth >= 0. *)
 
 Inductive ca_res := CA_obj (i : N) | CA_null | CA_crash | CA_fuel.
+
+(* for(tmp = obj; tmp->parent; tmp = tmp->parent) h++; *)
+Fixpoint height (d : dump) (fuel : nat) (o : dobj) : nat :=
+  match fuel with
+  | O => O
+  | S f => match deref d (o_parent o) with Some p => S (height d f p) | None => O end
+  end.
+
+(* k times obj = obj->parent *)
+Fixpoint climb (d : dump) (k : nat) (o : dobj) : option dobj :=
+  match k with
+  | O => Some o
+  | S k' => match deref d (o_parent o) with Some p => climb d k' p | None => None end
+  end.
+
+(* while (obj1 != obj2) { obj1 = obj1->parent; obj2 = obj2->parent; } *)
+Fixpoint climb_both (d : dump) (fuel : nat) (a b : dobj) : ca_res :=
+  match fuel with
+  | O => CA_fuel
+  | S f =>
+      if o_id a =? o_id b then CA_obj (o_id a)
+      else match deref d (o_parent a), deref d (o_parent b) with
+           | Some pa, Some pb => climb_both d f pa pb
+           | None, None => CA_null
+           | _, _ => CA_crash
+           end
+  end.
+
+Definition ca_by_height (d : dump) (a b : dobj) : ca_res :=
+  let fuel := S (List.length (t_objs d)) in
+  let h1 := height d fuel a in
+  let h2 := height d fuel b in
+  match climb d (h1 - h2) a, climb d (h2 - h1) b with
+  | Some a', Some b' => climb_both d fuel a' b'
+  | _, _ => CA_crash
+  end.
 
 Fixpoint common_ancestor (d : dump) (fuel : nat) (a b : dobj) : ca_res :=
   match fuel with
   | O => CA_fuel
   | S f =>
       if o_id a =? o_id b then CA_obj (o_id a)
+      else if (o_depth a <? 0)%Z || (o_depth b <? 0)%Z then ca_by_height d a b
       else if (o_depth b <? o_depth a)%Z then
         match deref d (o_parent a) with Some pa => common_ancestor d f pa b | None => CA_crash end
       else if (o_depth a <? o_depth b)%Z then
@@ -254,7 +295,8 @@ Definition obj_is_in_subtree (o root : dobj) : bool :=
   match o_cs o, o_cs root with Some a, Some b => bs_subset a b | _, _ => false end.
 
 (* ------------------------------------------------------------------ *)
-(* hwloc_get_closest_objs: [lv] = levels[src->depth] *)
+(* hwloc_get_closest_objs: [lv] = levels[src->depth], or the special level of
+   a memory source (fix df9b650) *)
 
 Fixpoint closest_rec (d : dump) (fuel : nat) (lv : list dobj) (parent : dobj) (max : nat) : list dobj :=
   match fuel with
@@ -275,14 +317,10 @@ Fixpoint closest_rec (d : dump) (fuel : nat) (lv : list dobj) (parent : dobj) (m
       end
   end.
 
-Inductive closest_res := CL_objs (l : list dobj) | CL_oob.   (* level_nbobjects[negative depth] *)
-
-Definition get_closest_objs (d : dump) (src : dobj) (max : N) : closest_res :=
+Definition get_closest_objs (d : dump) (src : dobj) (max : N) : list dobj :=
   match o_cs src with
-  | None => CL_objs []
-  | Some _ =>
-      if (o_depth src <? 0)%Z then CL_oob
-      else CL_objs (closest_rec d (S (List.length (t_objs d))) (level_objs d (o_depth src)) src (N.to_nat max))
+  | None => []
+  | Some _ => closest_rec d (S (List.length (t_objs d))) (level_objs d (o_depth src)) src (N.to_nat max)
   end.
 
 (* ------------------------------------------------------------------ *)
